@@ -395,9 +395,11 @@ func genC14(t *rapid.T) *Scenario {
 		inv.To = entry
 	}
 	sc.Invs = []Invocation{inv}
-	if chance(t, 50, "warmup") {
-		// an unrelated earlier context write by ANOTHER address through a plain CALL:
-		// whatever it leaves behind must not influence the call under test
+	{
+		// Every case starts with an unrelated context write by ANOTHER address through a
+		// plain CALL: whatever that leaves behind (in the precompile instance, in the
+		// process) must not influence the call under test. It is not drawn, so that
+		// shrinking cannot remove it and every case is self-contained on replay.
 		w := Invocation{Kind: "call", Origin: EOAAddr, Caller: EOA2Addr, To: common.BytesToAddress([]byte{0x66}), Gas: 100000, JP: false,
 			Input: append(append(append(word32(big.NewInt(64)), word32(big.NewInt(96))...), word32(big.NewInt(0))...), word32(big.NewInt(0))...)}
 		sc.Invs = []Invocation{w, inv}
